@@ -184,6 +184,10 @@ def acceptable(c, name):
     return {name, name + "@flagsfirst"} if c["sym"][0] == "M" else {name}
 
 
+def kept_all(a):
+    return set(a.get("kept", "-").split("+")) - {"-"}
+
+
 def sink_len(s):
     return 0 if s is None else (None if s == "n/a" else s[0])
 
@@ -873,6 +877,11 @@ class C20(PropBase):
                 return "log file %s, model %s" % (a["log"], p_log)
             if p_ld == "1" and a["log"] in ("-", "0"):
                 return "no diagnostic in the log file, model: one"
+            # at the levels off / error the logger writes nothing but main()'s fatal diagnostic (the library's own error!
+            # calls: --evil-json, local debuginfo, a malformed Linux memory map in a mutated dump)
+            if p_ld == "0" and a["log"] not in ("-", "0") and c["verbose"] in ("e", "off", "error") and not c["evil"] and not c["ldi"] and \
+                    c["input"][0] in "FSX" and "log" not in kept_all(a):
+                return "the log file holds %s bytes, model: empty (no fatal diagnostic at level %s)" % (a["log"], c["verbose"])
         if p_sd == "1" and a["stderr"] == "0":
             return "no diagnostic on standard error, model: one"
         return None
